@@ -510,6 +510,23 @@ var All = []W{
 		}
 		return jsonEq(got, `{"T":["1970-01-01T00:00:01Z","1970-01-01T00:00:02.000005Z"]}`)
 	}},
+	{ID: "D34", Property: "C01", What: "a zero time.Time marshalled at top level on an instance whose time.Time codec is BQTimestampCodec comes back as 1970-01-01: the codec omits the zero time but reads an empty payload as microsecond 0", Run: func() error {
+		p := newP(false, false)
+		p.RegisterCodec(reflect.TypeOf(time.Time{}), plenccodec.BQTimestampCodec{})
+		var z time.Time
+		data, err := p.Marshal(nil, &z)
+		if err != nil {
+			return err
+		}
+		out := time.Unix(99, 0)
+		if err := p.Unmarshal(data, &out); err != nil {
+			return err
+		}
+		if !out.IsZero() {
+			return fmt.Errorf("the zero time (encoded in %d bytes) reads back as %v", len(data), out)
+		}
+		return nil
+	}},
 	{ID: "D16b", Property: "C13", What: "descriptor walker drops zero-length elements (empty strings, empty structs, nil pointers) from arrays", Run: func() error {
 		p := newP(false, false)
 		got, err := descJSON(p, &tD16{S: []string{"a", "", "b"}, PS: []*tD16e{{A: 1}, nil, {}}})
